@@ -34,6 +34,9 @@ type miscCmd struct {
 	maintenance bool
 	// scopedForeign: a multi-hash-slot command that names a foreign hash slot
 	scopedForeign bool
+	// deltaHS: for an apply-delta command, the one hash slot it is a delta of
+	deltaHS uint16
+	isDelta bool
 }
 
 type miscGen struct {
@@ -260,10 +263,11 @@ func (g *miscGen) ordinary() miscCmd {
 // maintenanceCmd draws a hash-slot migration maintenance command.
 func (g *miscGen) maintenanceCmd(lastIndex uint64) miscCmd {
 	tp := g.tp
+	// maintenance commands and deltas are accepted for hash slots the slot does
+	// not own (source-side cleanup after a hand-over, incoming deltas before
+	// it); the state machine snapshot does not cover those, so this world keeps
+	// them on owned hash slots
 	hs := g.hs()
-	if tp.Chance(1, 8) {
-		hs = g.foreign
-	}
 	target := multiraft.SlotID(20 + tp.Intn(2))
 	switch tp.Intn(5) {
 	case 0:
@@ -278,7 +282,7 @@ func (g *miscGen) maintenanceCmd(lastIndex uint64) miscCmd {
 		inner := g.ordinary()
 		src := multiraft.SlotID(30 + tp.Intn(2))
 		sidx := uint64(1 + tp.Intn(4))
-		return miscCmd{hs: hs, data: fsm.EncodeApplyDeltaCommand(src, sidx, hs, inner.data), desc: fmt.Sprintf("apply-delta hs=%d src=%d/%d [%s]", hs, src, sidx, inner.desc), maintenance: true}
+		return miscCmd{hs: hs, data: fsm.EncodeApplyDeltaCommand(src, sidx, hs, inner.data), desc: fmt.Sprintf("apply-delta hs=%d src=%d/%d [%s]", hs, src, sidx, inner.desc), maintenance: true, isDelta: true, deltaHS: hs}
 	}
 }
 
